@@ -103,7 +103,7 @@ var faultPart = pbt.Part[faultCase]{Name: "fault-isolation-random", Journal: tru
 // with a null required field (finding C07-requires-fetch-sent-with-null-required-field), so
 // the other parts keep @requires out; a transport failure makes it skip the dependants,
 // and that skip has to carry through every later hop of the chain.
-var requiresPart = pbt.Part[faultCase]{Name: "fault-isolation-requires-transport", Journal: true, Quick: 5000, Thorough: 80000, Check: checkFault,
+var requiresPart = pbt.Part[faultCase]{Name: "fault-isolation-requires-transport", Journal: true, Quick: 14000, Thorough: 80000, Check: checkFault,
 	Gen: func(t *rapid.T) faultCase {
 		// with the validation switches on, the second hop of a @requires chain is still sent with
 		// a null required field (its own input was never fetched): same family as the recorded
